@@ -45,12 +45,34 @@ pub fn units(tier: &str, seed: u64) -> Vec<String> {
         // unusable sets: a carrier without grid supply factor
         ("EL.RED.SUMINISTRO.A,GN.INSITU.SUMINISTRO.A", "none", "none"),
         ("EL.INSITU.A_RED.A,GN.RED.SUMINISTRO.A", "none", "none"),
+        // ... a grid line that is not the step A supply factor does not make the carrier usable
+        ("EL.RED.SUMINISTRO.A,GN.RED.SUMINISTRO.B", "none", "none"),
+        ("EL.RED.SUMINISTRO.A,GN.RED.A_RED.A", "none", "none"),
+        ("EL.RED.SUMINISTRO.A,BM.COGEN.SUMINISTRO.A,GN.RED.SUMINISTRO.A", "none", "none"),
+        ("EL.RED.SUMINISTRO.B,GN.RED.SUMINISTRO.A", "none", "none"),
         // duplicate line: the first one wins
         ("EL.RED.SUMINISTRO.A,GN.RED.SUMINISTRO.A,GN.RED.SUMINISTRO.A", "none", "none"),
         ("EL.RED.SUMINISTRO.A,BM.RED.SUMINISTRO.A,EL.COGEN.A_RED.A", "none", "none"),
     ];
     for (l, r1, r2) in more {
         v.push(unit(&[("lines", l), ("red1", r1), ("red2", r2)]));
+    }
+    // one more line of every kind (carrier x source x destination x step) next to an electricity grid factor:
+    // all of them in the thorough tier, a seed-selected third in the quick tier
+    let mut i = 0u64;
+    for c in ["EL", "GN", "MA", "TS", "R1", "R2", "BM"] {
+        for src in ["RED", "INSITU", "COGEN"] {
+            for dst in ["SUMINISTRO", "A_RED", "A_NEPB"] {
+                for step in ["A", "B"] {
+                    i += 1;
+                    let code = format!("{}.{}.{}.{}", c, src, dst, step);
+                    if code == "EL.RED.SUMINISTRO.A" || !(tier == "thorough" || (i + seed) % 3 == 0) {
+                        continue;
+                    }
+                    v.push(unit(&[("lines", &format!("EL.RED.SUMINISTRO.A,{}", code)), ("red1", "none"), ("red2", "none")]));
+                }
+            }
+        }
     }
     for loc in ["PEN", "BAL", "CAN", "CEU"] {
         v.push(unit(&[("loc", loc), ("red1", if loc == "PEN" { "sym" } else { "none" }), ("red2", if loc == "BAL" { "sym" } else { "none" })]));
